@@ -60,8 +60,21 @@ func runC06(c *Ctx, tier string) {
 			bad = true
 			fns := map[string]token.Pos{}
 			for _, o := range ss.Org[st] {
-				if _, ok := fns[o.Fn]; !ok {
-					fns[o.Fn] = o.Pos
+				fnName := o.Fn
+				// a helper newer than the rules answers for the functions it acts for
+				// (the finding "lint L returns status S from its Execute" stays the same
+				// finding when the returning statement moves into an extracted helper)
+				if f := funcByName(c, fnName); f != nil && isNewFunc(f) {
+					if owners, ok := ownerFuncs(c, f); ok && len(owners) > 0 {
+						var ns []string
+						for _, ow := range owners {
+							ns = append(ns, fname(ow))
+						}
+						fnName = strings.Join(ns, "+")
+					}
+				}
+				if _, ok := fns[fnName]; !ok {
+					fns[fnName] = o.Pos
 				}
 			}
 			var keys []string
